@@ -25,6 +25,9 @@ CHECKS = {
  "C10": dict(design="3/C10", technique="exhaustive enumeration of designs x unseen-value placements x modes, plus all event histories of length <= 3 over mode changes and evaluations; expectations derived from the clean-frame evaluation",
    text="Bounded exhaustive model checking on the real code: for every design of the pool and every placement of unseen values (every non-empty row subset of a 3-row frame per variable, variables pairwise) in each of the three modes, the common and group matrices, slices, factors_with_new_levels, warnings and exceptions are compared with expectations derived from evaluating the same frame with the unseen cells replaced by a seen level; every history of <= 3 events over {set mode x3, evaluate common, evaluate group} on one frame object checks that the mode in force at evaluation time decides; configuration keys/values outside the documented ones must be refused and leave the mode unchanged.",
    note="Unseen groups in 'error' mode are not demanded; only UserWarnings raised from formulae's files count as formulae's warnings."),
+ "C17": dict(design="3/C17", technique="explicit-state breadth-first search over objects reachable by evaluate_new_data edges; container invariants on every state, re-checked on all earlier objects after every transition; reached-from-elsewhere differential",
+   text="Explicit-state BFS on the real objects: from every design of the pool (22 formulas incl. categorical / y[level] / proportion responses, no response, multi-column numeric terms, composite and multiple grouping factors) every matrix object reachable by evaluate_new_data over 5 frames (sub-frame, reversed, unseen group of g, of h, of both) to depth 2 (3 thorough) is checked: contiguous covering slices in term order, indexing by name, refusal of unknown names, agreement of data-frame / numpy / tuple views, unique labels, row counts, printing reports the actual shape; all earlier objects are re-checked after every step and root->A->B must equal root->B.",
+   note="Unseen groups are evaluated in silent mode; a label view of a widened group matrix is not demanded."),
 }
 NOT_YET = {}
 props = [json.loads(l) for l in open(os.path.join(V, "properties.jsonl"))]
